@@ -22,7 +22,7 @@ BUDGET = {"quick": 2400, "thorough": 30000}   # cases per seed group; every case
 MIN_NONTRIVIAL = {"quick": 300, "thorough": 3000}
 REQUIRED_FUNCTIONS = ["listener.py:RegRefTransform.__init__", "listener.py:BlackbirdListener.exitStatement"]
 FUNCTIONS = REQUIRED_FUNCTIONS
-REQUIRED_TAGS = ["regref-multi", "slot:positional", "slot:keyword", "plain-value-next-to-regref"]
+REQUIRED_TAGS = ["regref-multi", "slot:positional", "slot:keyword", "plain-value-next-to-regref", "loop", "register>=1000"]
 ASSUMPTIONS = ["a register that cancels identically is detected numerically by the reference and excluded (quantifier)",
                "measurement values are generic reals in +-[0.3, 3]; points where the reference cannot be evaluated (poles) are skipped"]
 SEEDS = 4
@@ -58,6 +58,27 @@ def build(rng, g):
             else:
                 kws.append("%s=%s" % (k, G.expr(1, "if")))
         lines.append("%s(%s) | %s" % (G.opname(), ", ".join(pos + kws), G.modes_text(G.pick_modes(2))))
+    c = rng.random()
+    if c < 0.2:
+        # the same argument text evaluated again with another value of a declared variable: inside a loop ...
+        v = G.ident()
+        co = G.ident()
+        lines.append("float %s = %s" % (co, rng.choice(["0.5", "1.5", "2"])))
+        e = rng.choice(["%s*q0 + %s*q1", "q2 - %s*%s*q3", "(%s + %s)*q5 - q7", "q1/%s + %s*q0"]) % (co, v)
+        lines.append("for %s %s in %s" % (rng.choice(["int", "float"]), v, rng.choice(["2:5", "[1, 3, 4]", "1:6:2"])))
+        lines.append("    Zgate(%s) | %s" % (e, rng.choice(["0", "[1, 2]"])))
+        if rng.random() < 0.5:
+            lines.append("    Xgate(1, k=%s) | 3" % e)
+        exprs.append(e)
+    elif c < 0.35:
+        # ... or with the variable declared again between two identical statements
+        co = G.ident()
+        e = rng.choice(["%s*q0 - q1", "q2/%s + q3", "%s*%s*q4 + 1"]).replace("%s", co)
+        lines.append("float %s = %s" % (co, rng.choice(["2", "0.75", "3"])))
+        lines.append("Zgate(%s) | 0" % e)
+        lines.append("float %s = %s" % (co, rng.choice(["-0.25", "1.25", "7"])))
+        lines.append("Zgate(%s) | 0" % e)
+        exprs.append(e)
     return "\n".join(lines) + "\n", exprs
 
 
@@ -109,6 +130,10 @@ def check_text(ctx, text, tags=()):
     nt = any(pairing_sensitive(s) for s in syms)
     if any(len(s.regs()) > 1 for s in syms):
         feats.add("regref-multi")
+    if any(n >= 1000 for s in syms for n in s.regs()):
+        feats.add("register>=1000")
+    if "loop" in ref.features:
+        feats.add("loop")
     if nt:
         feats.add("pairing-sensitive")
     ctx.case(text, nt, tags=sorted(feats))
